@@ -36,6 +36,7 @@ impl IndexSet {
   #[verifier::external_body] pub fn intersection(&self, o: &IndexSet) -> (r: SetIter) ensures r.elems@ == self.view().intersect(o.view()) { unimplemented!() }
   #[verifier::external_body] pub fn difference(&self, o: &IndexSet) -> (r: SetIter) ensures r.elems@ == self.view().difference(o.view()) { unimplemented!() }
   #[verifier::external_body] pub fn symmetric_difference(&self, o: &IndexSet) -> (r: SetIter) ensures r.elems@ == symdiff(self.view(), o.view()) { unimplemented!() }
+  #[verifier::external_body] pub fn contains(&self, v: &Value) -> (r: bool) ensures r == self.view().contains(v.id) { unimplemented!() }
   #[verifier::external_body] pub fn is_subset(&self, o: &IndexSet) -> (r: bool) ensures r == self.view().subset_of(o.view()) { unimplemented!() }
   #[verifier::external_body] pub fn is_superset(&self, o: &IndexSet) -> (r: bool) ensures r == o.view().subset_of(self.view()) { unimplemented!() }
   #[verifier::external_body] pub fn is_disjoint(&self, o: &IndexSet) -> (r: bool) ensures r == self.view().disjoint(o.view()) { unimplemented!() }
@@ -225,6 +226,46 @@ def hash_order_unit(plan):
     plan.assumptions.append("C14.hash_order: a fresh DefaultHasher fed with one element finishes with a value that depends only on the element (eh), in 0..2^64 (admitted range axiom); IndexSet iterates in insertion order")
 
 
+def membership_unit(plan):
+    """element_of / not_element_of kernels (machines/set/src/membership): statements of solve() after the three pointer bindings
+    (out_ptr, elem_ptr, set_ptr), verbatim; postcondition = mathematical membership (for a well-formed set: all elements of the set's kind)"""
+    from vlib import read_repo, extract_fn, split_statements, VerusUnit, AnchorLost, find_code, match_brace
+    items, fns = [SET_PRELUDE], {}
+    for nm, spec in (("element_of", "set_ptr.set.view().contains(elem_ptr.id)"), ("not_element_of", "!set_ptr.set.view().contains(elem_ptr.id)")):
+        rel = "machines/set/src/membership/%s.rs" % nm
+        name = "C14.membership.%s" % nm
+        ob = plan.ob(name, "verus", "proved", functions=[rel + ": solve"], what="out == (elem %s set) for a well-formed set (under the assumed IndexSet specification)" % ("in" if nm == "element_of" else "not in"))
+        try:
+            text = read_repo(rel)
+            sig, body = extract_fn(text, "solve")
+            m = find_code(body, r"unsafe\s*\{")
+            if not m:
+                raise AnchorLost("solve() has no unsafe block")
+            inner = body[m.end() - 1:match_brace(body, m.end() - 1)]
+            stm = [vlib.strip_lead(x) for x in split_statements(inner)]
+            ptr = [x for x in stm if re.match(r"let (mut )?(out_ptr|elem_ptr|set_ptr)\s*:", x)]
+            rest = [x for x in stm if not re.match(r"let (mut )?(out_ptr|elem_ptr|set_ptr)\s*:", x)]
+            if len(ptr) != 3 or any("self." in x for x in rest):
+                raise AnchorLost("solve(): expected the three pointer bindings out_ptr / elem_ptr / set_ptr")
+        except AnchorLost as e:
+            plan.anchor_errors.append((name, str(e)))
+            ob.status, ob.detail = "undecided", "anchor lost: %s" % e
+            continue
+        fn = "mem_%s" % nm
+        items.append("""fn %s(out_ptr: &mut bool, elem_ptr: &Value, set_ptr: &MechSet)
+  requires set_ptr.wf(),
+  ensures *final(out_ptr) == %s,
+{
+  %s
+}
+""" % (fn, spec, "\n  ".join(rest)))
+        fns[fn] = name
+    if fns:
+        items.append(vlib.verus_canary("canary_mem", "x: u64", []))
+        plan.verus.append(VerusUnit("c14_membership", vlib.verus_file(items), fns, ["canary_mem"]))
+        plan.dropped.append(membership_unit.__doc__.strip())
+
+
 def literal_unit(plan):
     """(F) the kind-homogeneity check of `set()` (src/interpreter/src/structures.rs): the statements from
     `let element_kind = ..` up to (excluding) the construction of the set, verbatim except `return Err(..)` -> `return None`
@@ -276,6 +317,10 @@ def plan(plan, tier, seed):
         literal_unit(plan)
     except Exception as e:
         plan.anchor_errors.append(("C14.literal.*", repr(e)))
+    try:
+        membership_unit(plan)
+    except Exception as e:
+        plan.anchor_errors.append(("C14.membership.*", repr(e)))
     try:
         hash_order_unit(plan)
     except Exception as e:
